@@ -122,6 +122,17 @@ def make_renderers(env: "Env") -> Dict[str, Dict[str, Any]]:
     return out
 
 
+def construct_violation(prop: str, ex: BaseException, via: str) -> Optional[Dict[str, Any]]:
+    """The reference model's initial state is built through public constructors and add() calls (or parsed): a
+    *library* error raised there is reported as a violation of its own kind, not as a harness problem."""
+    if not (type(ex).__module__ or "").startswith("pydbml"):
+        return None
+    return {"violation": {"property": prop, "oracle": "construct",
+                          "signature": f"construct:initial-build-raised:{type(ex).__name__}:{via}",
+                          "detail": {"after": {"index": -1, "op": ["construct", via]}, "raised": repr(ex)[:300]}},
+            "counters": {}, "trace": []}
+
+
 class Engine:
     def __init__(self, env: Env, world: World, prop: str, via_add: bool = True,
                  pre: Optional[Dict[str, Any]] = None) -> None:
